@@ -14,6 +14,11 @@ func (SanitizeNodeMergerFunc) Merge(inputs []*MergeInput) (*MergeResult, error) 
 		return nil, err
 	}
 
+	// no service declares a Query type: there is no node field to hide
+	if res.Schema == nil || res.Schema.Query == nil {
+		return res, nil
+	}
+
 	// remove node from query
 	sanitizedFieldList := make(ast.FieldList, 0)
 	for _, field := range res.Schema.Query.Fields {
